@@ -19,6 +19,7 @@ LEVEL_TEXT = ("per sampled authentic file the fault space named by the property 
 LEVEL_NOTE = ("oracle: raise, or content equal to the original (comments + components; session key when at least one "
               "component binds it); auth-block list not compared; trusts RefDir only for naming regions")
 RUNS = {"quick": 1600, "thorough": 480}
+OPTIMIZED_PASS = {"quick": 100, "thorough": 30}   # extra runs under PYTHONOPTIMIZE=1 (assert statements removed)
 RUN_WALL_CAP = 1800   # a thorough run enumerates every fault of one file
 RULE = ("per run one authentic BF3/BEC2 file (seeded shapes of C01/C02) and a list of single faults, "
         "each applied alone: writer crash at write call k keeping n bytes (simulated, real writer), "
@@ -32,7 +33,7 @@ REAL = ["bec2format.bf3file / bec2file (writer and reader)", "bec2format.bytes_r
         "register_crypto_plugin (AES adapter, ECC proxies)", "pyaes", "ecdsa (ECC blocks)"]
 STUBS = ["medium: SimFS (crash points, torn writes)", "RNG: SimRng behind register_random_bytes / "
          "os.urandom shims", "RefDir (locates fields; never judges)"]
-PROBES = ["payload-64k-or-more", "concurrent-readers", "cut-drops-only-zero-bytes", "cut-inside-hex-pair", "cut-splits-crlf", "cut-inside-dir-size",
+PROBES = ["runs-with-assertions-disabled", "key-buffer-changed-in-place", "payload-64k-or-more", "concurrent-readers", "cut-drops-only-zero-bytes", "cut-inside-hex-pair", "cut-splits-crlf", "cut-inside-dir-size",
           "cut-in-comment-header", "cut-after-signature", "damage-accepted-equal",
           "crash-simulated-equals-prefix", "rep-in-length-field", "bec2-header-damage",
           "keybit-on-empty-file"]
@@ -236,8 +237,9 @@ def run(case):
         decs = list(w.decryptors.values())
         # the fault-free read must work, otherwise there is nothing to judge here (C01/C02)
         fs.restart()
+        kbuf = bytearray(w.key)     # the caller keeps the session key in one buffer object for all reads
         try:
-            base = files.read_file(kind, fs, env, name, "path", True, w.key, decs)
+            base = files.read_file(kind, fs, env, name, "path", True, kbuf if kind == "bf3" else w.key, decs)
             if files.compare_read(kind, w, base) is not None:
                 raise ValueError("baseline differs")
         except Exception as e:
@@ -335,9 +337,16 @@ def run(case):
                     out.fired["sector-" + ft[2]] += 1
             elif fkind == "keybit":
                 i = ft[1]
-                kb = bytearray(w.key)
-                kb[i // 8] ^= 1 << (i % 8)
-                key = bytes(kb)
+                if nev % 2:
+                    kb = bytearray(w.key)
+                    kb[i // 8] ^= 1 << (i % 8)
+                    key = bytes(kb)
+                else:
+                    # the same buffer object that was used for the successful read, changed in place
+                    kbuf[:] = w.key
+                    kbuf[i // 8] ^= 1 << (i % 8)
+                    key = kbuf
+                    out.probes["key-buffer-changed-in-place"] += 1
                 damaged = orig
                 region = "key"
                 out.fired["keybit"] += 1
